@@ -65,6 +65,17 @@ in the list; reference, cooperative runs, soak, shrinker and replay all go throu
 oracle (callback exactly once per tensor) with a 2-tensor replay; the LTS has one task per tensor, so the trace
 check rejects the run as well.
 
+ROUND-6.  r6m1 (shard results collected with as_completed: tensors bound by position to another shard's file /
+offset while the data files stay identical): the oracle now compares, after a successful save, every tensor's
+(location, offset, length) and the bytes read back through the ExternalTensor the caller ends up with
+(initializers of the model for unload_from_model, the returned list for convert / write) with the serial save's
+(bindings_of).  r6m3 (one module-level non-reentrant callback lock -> self-deadlock; it used to HANG the check
+because the lock was created at import time with the real threading): run_coop now replaces every real
+Lock/RLock/Condition found in the module namespace by the cooperative one for the run, so the scheduler sees the
+deadlock; every call into the real implementation has a watchdog (cooperative run 20 s, soak 30 s, serial
+reference save 30 s -> VIOLATION kind serial-save-hangs); after a real hang the exploration stops (Collector.poisoned)
+and the soak does not start another save.
+
 SECOND DEEPENING ROUND.  (1) generate() linearises the synchronisation operations of one task from the source
 (_write_one, _write_serial's loop body, _write_tensor, _write_tensor_with_budget_at, _locked_callback._wrapped; fails
 closed on any other statement that may synchronise) and also pins: the parallel writer's budget is never None, one
@@ -1249,6 +1260,29 @@ def _chunk(hc):
         _core._EXTERNAL_TENSOR_COPY_CHUNK_SIZE = old
 
 
+class SaveHung(RuntimeError):
+    """a call into the implementation did not return within the watchdog time"""
+
+
+def _watchdog(fn, seconds, what):
+    """Run fn() in a daemon thread; SaveHung if it does not return in time (liveness is part of the property)."""
+    box = {}
+
+    def target():
+        try:
+            box["v"] = fn()
+        except BaseException as e:  # noqa: BLE001
+            box["e"] = e
+    th = _real_threading.Thread(target=target, daemon=True)
+    th.start()
+    th.join(seconds)
+    if th.is_alive():
+        raise SaveHung(f"{what} did not return within {seconds} s")
+    if "e" in box:
+        raise box["e"]
+    return box.get("v")
+
+
 def reference(hc, workdir) -> dict:
     """The serial save (max_workers=None, real modules, no failures): files, layout, and the plan that
     names pools / workers the way the model does."""
@@ -1262,7 +1296,8 @@ def reference(hc, workdir) -> dict:
     def cb(tensor, info):
         layout[info.index] = (info.filename, info.offset)
     with _chunk(hc):
-        ret = invoke_save(hc, model, ref_objs, out, cb, None, ed._DEFAULT_MAX_IN_FLIGHT_BYTES)
+        ret = _watchdog(lambda: invoke_save(hc, model, ref_objs, out, cb, None, ed._DEFAULT_MAX_IN_FLIGHT_BYTES),
+                        30.0, "the serial save (max_workers=None)")
     ref_bindings = bindings_of(hc, model, ret)
     files = _list_files(out)
     shutil.rmtree(wd, ignore_errors=True)
@@ -1426,6 +1461,19 @@ def run_coop(hc, plan, workdir, chooser, pickfn=None, keyfn=None, max_steps=4000
 
     saved = (ed.threading, ed.concurrent, ed._ByteBudget)
     ed.threading, ed.concurrent, ed._ByteBudget = rt.threading, rt.concurrent, Budget
+    # locks / conditions that live in the module namespace (created at import time with the real threading) are
+    # instrumented too: otherwise a cothread would block the OS thread that holds the baton
+    mod_saved = {}
+    lock_types = (type(_real_threading.Lock()), type(_real_threading.RLock()))
+    for name, val in list(vars(ed).items()):
+        if isinstance(val, lock_types):
+            mod_saved[name] = val
+            co = CoLock(rt)
+            co.role = "module:" + name
+            setattr(ed, name, co)
+        elif isinstance(val, _real_threading.Condition):
+            mod_saved[name] = val
+            setattr(ed, name, CoCondition(rt))
     def on_open_attempt(fails):
         me = sched.cur
         sched.emit(rt._wrk(me), 19 if fails else 18, me.task)
@@ -1439,6 +1487,8 @@ def run_coop(hc, plan, workdir, chooser, pickfn=None, keyfn=None, max_steps=4000
             finished = sched.done.wait(timeout)
     finally:
         ed.threading, ed.concurrent, ed._ByteBudget = saved
+        for name, val in mod_saved.items():
+            setattr(ed, name, val)
         if "open" in vars(ed):
             del ed.open
     sched._seal() if sched.outcome == "finished" else None
@@ -2022,6 +2072,7 @@ class Collector:
         self.failures = []          # (hc, plan, res, bad)
         self.plans = {}
         self.nruns = 0
+        self.poisoned = False
 
     def plan(self, hc):
         k = common.digest(hc)
@@ -2042,6 +2093,8 @@ class Collector:
         bad = oracle(hc, plan, res)
         if bad:
             self.failures.append((hc, plan, res, bad))
+        if res["sched_outcome"] != "finished" and res["sched_outcome"][0] == "timeout":
+            self.poisoned = True        # an OS thread is stuck inside the implementation: stop exploring
         # non-trivial: contention actually happened (a thread slept on the budget, an oversized reservation,
         # an error path with cancellation, or a two-level run)
         if codes & {10, 11, 33} or plan["outer"]:
@@ -2158,11 +2211,14 @@ def run(ck) -> None:
     n_cfg = 80 if not thorough else 550
     per_cfg = 10 if not thorough else 40
     for i in range(n_cfg):
-        if col.failures and len(col.failures) > 3:
+        if (col.failures and len(col.failures) > 3) or col.poisoned:
             break
         hc = gen_hc(rng, ["large", "small", "twolevel", "oneshard", "zerolen", "mixed", "extchunk", "twolevel", "aligned", "oneshard"][i % 10])
         try:
             plan = col.plan(hc)
+        except SaveHung as e:
+            ck.violation({"kind": "serial-save-hangs", "hc": hc, "choices": None, "picks": None, "failures": [str(e)]})
+            break
         except Exception as e:  # noqa: BLE001
             ck.broken("harness:reference-save-failed", f"{hc}: {e}")
             continue
@@ -2219,6 +2275,7 @@ def run(ck) -> None:
         ck.hist("schedule_source", "real-threads", soak_runs)
         if bad:
             col.failures.append((hc, plan, {"choices": None, "picks": None, "real_threads": True}, bad))
+            break                      # a hung save may still hold real locks: do not start another one
     # 7. known findings (none recorded for C09) and violations
     for k in ck._known:
         if k.get("status") == "known":
@@ -2236,7 +2293,7 @@ def run(ck) -> None:
             continue
         reported.add(sig)
         small, best = (hc, None)
-        if not res.get("real_threads"):
+        if not res.get("real_threads") and not col.poisoned:
             small, best = shrink(ck, col, hc, rng)
         if best:
             ck.violation(replay_dict(small, best[0], best[1]))
